@@ -3,8 +3,11 @@ package main
 import (
 	"fmt"
 	"go/ast"
+	"go/token"
 	"go/types"
+	"io"
 	"math"
+	"os"
 	"path"
 	"sort"
 	"strings"
@@ -63,9 +66,24 @@ type walker struct {
 	stack   []*types.Func
 	onStack map[*types.Func]int
 	memo    map[*types.Func][]event
-	impls   map[*types.Func][]*types.Func // interface method -> concrete repo methods
 	// notes about unresolved dynamic calls, keyed for de-duplication.
 	unresolved map[string]bool
+	// trace, when non-nil, receives an indented call tree (memoisation is
+	// disabled while tracing so that every subtree is printed).
+	trace io.Writer
+}
+
+func (wk *walker) tracef(format string, a ...any) {
+	if wk.trace != nil {
+		fmt.Fprintf(wk.trace, "%s"+format+"\n", append([]any{strings.Repeat("  ", len(wk.stack))}, a...)...)
+	}
+}
+
+func (wk *walker) noteUnresolved(pos token.Pos, what string) {
+	p := wk.w.fset.Position(pos)
+	key := fmt.Sprintf("%s:%d: %s", wk.w.relFile(pos), p.Line, what)
+	wk.unresolved[key] = true
+	wk.tracef("?? %s", key)
 }
 
 func newWalker(w *world) *walker {
@@ -73,7 +91,6 @@ func newWalker(w *world) *walker {
 		w:          w,
 		onStack:    map[*types.Func]int{},
 		memo:       map[*types.Func][]event{},
-		impls:      map[*types.Func][]*types.Func{},
 		unresolved: map[string]bool{},
 	}
 }
@@ -94,10 +111,11 @@ func collapse(ev []event) []event {
 // escaped fn's own frame).
 func (wk *walker) funcEvents(fn *types.Func) ([]event, int) {
 	fn = fn.Origin()
-	if ev, ok := wk.memo[fn]; ok {
+	if ev, ok := wk.memo[fn]; ok && wk.trace == nil {
 		return ev, noCut
 	}
 	if d, ok := wk.onStack[fn]; ok {
+		wk.tracef("(recursion cut: %s)", fn.FullName())
 		return nil, d // recursion guard
 	}
 	fd := wk.w.decls[fn]
@@ -105,6 +123,7 @@ func (wk *walker) funcEvents(fn *types.Func) ([]event, int) {
 		return nil, noCut
 	}
 	depth := len(wk.stack)
+	wk.tracef("-> %s", fn.FullName())
 	wk.stack = append(wk.stack, fn)
 	wk.onStack[fn] = depth
 	fr := &frame{wk: wk, info: fd.pkg.TypesInfo, cut: noCut}
@@ -128,6 +147,7 @@ type frame struct {
 }
 
 func (fr *frame) emit(e event) {
+	fr.wk.tracef("%s", e.coq())
 	if n := len(fr.out); n > 0 && fr.out[n-1] == e {
 		return
 	}
@@ -252,11 +272,30 @@ const (
 // and by the purity analysis of nondet.go.
 func (w *world) classify(fn *types.Func, recv types.Type) callClass {
 	name := fn.Name()
-	if verifyNames[name] {
-		return ccVerify
-	}
 	drecv := declaredRecv(fn)
 	isMethod := drecv != nil
+	if verifyNames[name] {
+		// Only the x/ovm keeper's functions count as ticket verification: either
+		// called directly, or through a repo interface (expected keeper) all of
+		// whose repo implementations live in x/ovm/keeper.  A look-alike
+		// function elsewhere is treated as an ordinary call.
+		const ovmKeeper = repoModule + "/x/ovm/keeper"
+		if pkgPathOf(fn) == ovmKeeper {
+			return ccVerify
+		}
+		if isMethod && types.IsInterface(drecv) && isRepoPath(pkgPathOf(fn)) {
+			impls := w.implementations(fn)
+			all := len(impls) > 0
+			for _, im := range impls {
+				if pkgPathOf(im) != ovmKeeper {
+					all = false
+				}
+			}
+			if all {
+				return ccVerify
+			}
+		}
+	}
 	if isMethod {
 		if w.isKVStore(recv) || w.isKVStore(drecv) {
 			switch name {
@@ -320,6 +359,7 @@ func classifyByName(name string, isMethod bool) callClass {
 func (fr *frame) call(call *ast.CallExpr) {
 	fn, recv := calleeOf(fr.info, call)
 	if fn == nil {
+		fr.noteDynamic(call)
 		return
 	}
 	w := fr.wk.w
@@ -334,9 +374,10 @@ func (fr *frame) call(call *ast.CallExpr) {
 		ev, cut := fr.wk.funcEvents(fn)
 		fr.splice(ev, cut)
 	case ccDispatch:
-		impls := fr.wk.implementations(fn)
+		impls := w.implementations(fn)
 		switch len(impls) {
 		case 0:
+			fr.wk.noteUnresolved(call.Pos(), "repo interface method without repo implementation: "+fn.FullName())
 			switch classifyByName(fn.Name(), true) {
 			case ccWrite:
 				fr.emit(evWrite)
@@ -373,20 +414,46 @@ func (fr *frame) call(call *ast.CallExpr) {
 					if e == evVerify && !allVerify {
 						continue
 					}
-					fr.emit(e)
+					if n := len(fr.out); n > 0 && fr.out[n-1] == e {
+						continue
+					}
+					fr.out = append(fr.out, e)
 				}
 			}
 		}
 	}
 }
 
+// splice appends the events of an inlined callee.  While tracing, the callee
+// has already printed its own events, so only the list is updated.
 func (fr *frame) splice(ev []event, cut int) {
 	if cut < fr.cut {
 		fr.cut = cut
 	}
 	for _, e := range ev {
-		fr.emit(e)
+		if n := len(fr.out); n > 0 && fr.out[n-1] == e {
+			continue
+		}
+		fr.out = append(fr.out, e)
 	}
+}
+
+// noteDynamic records calls whose target is not statically known (function
+// values, function-typed fields); conversions and builtins are ignored.
+func (fr *frame) noteDynamic(call *ast.CallExpr) {
+	fun := ast.Unparen(call.Fun)
+	if tv, ok := fr.info.Types[fun]; ok && tv.IsType() {
+		return
+	}
+	if id, ok := fun.(*ast.Ident); ok {
+		if _, ok := fr.info.Uses[id].(*types.Builtin); ok {
+			return
+		}
+	}
+	if _, ok := fun.(*ast.FuncLit); ok {
+		return // body walked in place
+	}
+	fr.wk.noteUnresolved(call.Pos(), "call through function value not followed: "+types.ExprString(fun))
 }
 
 func excludedImplPkg(p string) bool {
@@ -401,15 +468,15 @@ func excludedImplPkg(p string) bool {
 
 // implementations returns the distinct concrete repo methods that can be the
 // target of a call to the interface method m (interface declared in the repo).
-func (wk *walker) implementations(m *types.Func) []*types.Func {
-	if r, ok := wk.impls[m]; ok {
+func (w *world) implementations(m *types.Func) []*types.Func {
+	if r, ok := w.impls[m]; ok {
 		return r
 	}
 	var res []*types.Func
 	iface, _ := declaredRecv(m).Underlying().(*types.Interface)
 	if iface != nil {
 		seen := map[*types.Func]bool{}
-		for _, nt := range wk.w.repoNamed {
+		for _, nt := range w.repoNamed {
 			if nt.Obj().Pkg() == nil || excludedImplPkg(nt.Obj().Pkg().Path()) {
 				continue
 			}
@@ -433,7 +500,7 @@ func (wk *walker) implementations(m *types.Func) []*types.Func {
 		}
 	}
 	sort.Slice(res, func(i, j int) bool { return res[i].FullName() < res[j].FullName() })
-	wk.impls[m] = res
+	w.impls[m] = res
 	return res
 }
 
@@ -486,7 +553,7 @@ func hasTicketField(t types.Type, depth int, seen map[*types.Named]bool) bool {
 	return false
 }
 
-func analyseHandlers(w *world) ([]handlerRow, []ticketMsg, error) {
+func analyseHandlers(w *world, trace string) ([]handlerRow, []ticketMsg, error) {
 	wk := newWalker(w)
 	var rows []handlerRow
 	ticketSet := map[ticketMsg]bool{}
@@ -554,7 +621,12 @@ func analyseHandlers(w *world) ([]handlerRow, []ticketMsg, error) {
 			if w.decls[cf.Origin()] == nil {
 				w.warnf("module %s: handler %s resolves to %s which has no body in the repo", mod, m.Name(), cf.FullName())
 			}
+			if trace == mod+"/"+m.Name() || trace == "all" {
+				fmt.Printf("== trace %s/%s\n", mod, m.Name())
+				wk.trace = os.Stdout
+			}
 			ev, _ := wk.funcEvents(cf)
+			wk.trace = nil
 			row.events = collapse(ev)
 			rows = append(rows, row)
 		}
@@ -564,6 +636,10 @@ func analyseHandlers(w *world) ([]handlerRow, []ticketMsg, error) {
 			w.warnf("module %s: no types.MsgServer interface found", m)
 		}
 	}
+	for k := range wk.unresolved {
+		w.unresolved = append(w.unresolved, k)
+	}
+	sort.Strings(w.unresolved)
 	sort.Slice(rows, func(i, j int) bool {
 		if rows[i].module != rows[j].module {
 			return rows[i].module < rows[j].module
